@@ -2069,7 +2069,21 @@ def _sorted(interp, args, kw, node):
 
 @_b('sum')
 def _sum(interp, args, kw, node):
-    raise Unsupported('sum()')
+    """sum over a concrete-length iterable (fold of +), or of a constant over a symbolic iterator: c * remaining (T2)"""
+    it = get_iter(interp, args[0], node)
+    start = args[1] if len(args) > 1 else kw.get('start', 0)
+    if is_concrete_iter(it):
+        acc = start
+        for x in iter_concrete(interp, it):
+            acc = binop(interp, ast.Add(), acc, x, node)
+        return acc
+    if isinstance(it, MapIter) and isinstance(it.inner, SrcIter) and it.inner.arr is not None:
+        n = z3.simplify(sym_remaining(it.inner))
+        keep, val = it.fn(SCell(smt.fresh_v('sum_elem')))
+        if keep is True and is_conc_int(val) and is_conc_int(start):
+            sym_exhaust(it.inner)
+            return SInt(z3.simplify(start + val * n))
+    raise Unsupported('sum() over a symbolic iterable')
 
 
 @_b('print')
